@@ -126,9 +126,10 @@ type top struct {
 }
 
 type prefill struct {
-	B int `json:"b"`
-	N int `json:"n"`
-	A int `json:"a"`
+	B   int `json:"b"`
+	N   int `json:"n"`
+	A   int `json:"a"`
+	Off int `json:"off,omitempty"` // first id of the slot's pool that is used
 }
 
 type tplan struct {
@@ -249,6 +250,22 @@ func genTPlan(t *rapid.T) tplan {
 		NIDs:    rapid.SampledFrom([]int{2, 4, 8, 30, 30, 30}).Draw(t, "nids"),
 		Prefill: genPrefill(t),
 		Drain:   rapid.IntRange(0, 1).Draw(t, "drain"),
+	}
+	if rapid.IntRange(0, 7).Draw(t, "crowd") == 0 {
+		// a crowded bucket: 16 entries (two from one public /24, one from another, the rest from the LAN) and a full
+		// stand-by list whose oldest member is a second node of that other /24 (both /24s are then at the bucket's
+		// limit); then newcomers from the two /24s arrive. The address sets must keep counting what the bucket holds.
+		hot := rapid.SampledFrom([]int{1, 5}).Draw(t, "crowdSlot")
+		g.hot = hot
+		p.NIDs = 30
+		p.Prefill = []prefill{{B: hot, N: 2, A: 12, Off: 0}, {B: hot, N: 1, A: addrPubA, Off: 2}, {B: hot, N: 13, A: addrLAN, Off: 3},
+			{B: hot, N: 1, A: addrPubA + 1, Off: 16}, {B: hot, N: 9, A: addrLAN, Off: 17}}
+		for i, a := range []int{13, addrPubA + 2, addrPubA, 12, addrPubA + 1} {
+			if i >= 4 && !rapid.Bool().Draw(t, "crowdMore") {
+				break
+			}
+			p.Ops = append(p.Ops, top{K: opFound, N: nref{B: hot, I: 26 + i%4, A: a}, Live: rapid.Bool().Draw(t, "crowdLive")})
+		}
 	}
 	n := rapid.IntRange(0, g.maxOps).Draw(t, "nops")
 	for i := 0; i < n; i++ {
@@ -536,7 +553,7 @@ func runSerial(p tplan, c *stats.Case, obs observer) error {
 
 	for _, pf := range p.Prefill {
 		for i := 0; i < pf.N; i++ {
-			if err := add(mkNode(poolID(pf.B, i), pf.A, 0, 0), false, i%2 == 0); err != nil {
+			if err := add(mkNode(poolID(pf.B, pf.Off+i), pf.A, 0, 0), false, i%2 == 0); err != nil {
 				return err
 			}
 		}
